@@ -189,4 +189,230 @@ theorem grothMove1_spec (hG : ValidGroup G) {P : GrothPub} (hP : PubOk G P) (pi 
     bind_ok (send_apply _ _)]
   simp [pure_apply, List.append_assoc]
 
+/-! ### the final product equation -/
+
+/-- `Π E_i^{d_i + t_{π(i)}} · (Π E_i^{-d_i} · b^{R_d}) · Π (x_i^{t_i})^{-1} = b^{R_d + Σ R_i t_{π(i)}}` for
+    `E_i = x_{π(i)} b^{R_i}` -/
+theorem shuffle_alg (n : ℕ) (pi : List ℕ) (hp : pi.Perm (List.range n)) (x Ev : ℕ → F G) (b : F G)
+    (hb : b ≠ 0) (hx : ∀ j < n, x j ≠ 0) (R d t : ℕ → ℤ) (Rd : ℤ)
+    (hE : ∀ i < n, Ev i = x (pi.getD i 0) * b ^ R i) :
+    (∏ i ∈ Finset.range n, Ev i ^ (d i + t (pi.getD i 0))) *
+      ((∏ i ∈ Finset.range n, Ev i ^ (-(d i))) * b ^ Rd) *
+      (∏ i ∈ Finset.range n, (x i ^ t i)⁻¹) =
+    b ^ (Rd + ∑ i ∈ Finset.range n, R i * t (pi.getD i 0)) := by
+  have hE0 : ∀ i < n, Ev i ≠ 0 := fun i hi => by
+    rw [hE i hi]; exact mul_ne_zero (hx _ (perm_getD_lt hp i hi)) (zpow_ne_zero _ hb)
+  have h1 : (∏ i ∈ Finset.range n, Ev i ^ (d i + t (pi.getD i 0))) * (∏ i ∈ Finset.range n, Ev i ^ (-(d i))) =
+      (∏ i ∈ Finset.range n, x (pi.getD i 0) ^ t (pi.getD i 0)) *
+        ∏ i ∈ Finset.range n, b ^ (R i * t (pi.getD i 0)) := by
+    rw [← Finset.prod_mul_distrib, ← Finset.prod_mul_distrib]
+    apply Finset.prod_congr rfl
+    intro i hi
+    have hi' := Finset.mem_range.mp hi
+    rw [← zpow_add₀ (hE0 i hi'), show d i + t (pi.getD i 0) + -(d i) = t (pi.getD i 0) by ring,
+      hE i hi', mul_zpow, ← zpow_mul]
+  rw [prod_perm_range pi n hp (fun j => x j ^ t j), prod_zpow_sum b hb] at h1
+  calc (∏ i ∈ Finset.range n, Ev i ^ (d i + t (pi.getD i 0))) *
+        ((∏ i ∈ Finset.range n, Ev i ^ (-(d i))) * b ^ Rd) * (∏ i ∈ Finset.range n, (x i ^ t i)⁻¹)
+      = ((∏ i ∈ Finset.range n, Ev i ^ (d i + t (pi.getD i 0))) * (∏ i ∈ Finset.range n, Ev i ^ (-(d i)))) *
+          b ^ Rd * (∏ i ∈ Finset.range n, (x i ^ t i)⁻¹) := by ring
+    _ = b ^ (Rd + ∑ i ∈ Finset.range n, R i * t (pi.getD i 0)) := by
+      rw [h1, zpow_add₀ hb, Finset.prod_inv_distrib]
+      have : (∏ i ∈ Finset.range n, x i ^ t i) ≠ 0 := by
+        rw [Finset.prod_ne_zero_iff]
+        intro i hi; exact zpow_ne_zero _ (hx i (Finset.mem_range.mp hi))
+      field_simp
+
+
+theorem toQ_sum_mod (hG : ValidGroup G) (f : ℕ → ℤ) (n : ℕ) :
+    toQ G (∑ i ∈ Finset.range n, f i % G.q) = toQ G (∑ i ∈ Finset.range n, f i) := by
+  induction n with
+  | zero => simp
+  | succ n ih => rw [Finset.sum_range_succ, Finset.sum_range_succ, toQ_add, toQ_add, ih, toQ_emod hG]
+
+theorem prod_pow_eq_one (n : ℕ) (a : ℕ → F G) (k : ℕ) (h : ∀ i < n, a i ^ k = 1) :
+    (∏ i ∈ Finset.range n, a i) ^ k = 1 := by
+  rw [← Finset.prod_pow]
+  exact Finset.prod_eq_one (fun i hi => h i (Finset.mem_range.mp hi))
+
+theorem mpzPowm_q_one (hG : ValidGroup G) (a : ℤ) (v : F G) (ha : Val G a v) (hv : v ^ G.q.natAbs = 1) :
+    mpzPowm a G.q G.p = .ok 1 := by
+  have hv0 : v ≠ 0 := ne_zero_of_pow_eq_one (q_natAbs_ne_zero hG) hv
+  obtain ⟨r, hr, r0, rp, rv⟩ := mpzPowm_val hG a G.q (by rw [ha.2.2]; exact hv0)
+  have : r = 1 := by
+    apply eq_of_toF_eq hG ⟨r0, rp⟩ ⟨by norm_num, one_lt_p hG⟩
+    rw [rv, ha.2.2, toF_one, ← natAbs_q hG, zpow_natCast, hv]
+  rw [hr, this]
+
+theorem groth_core (hG : ValidGroup G) (mode : Mode) {P : GrothPub} (hP : PubOk G P) (pi : List ℕ)
+    (R : List ℤ) (e E : List Card) (st : ShufStmt G P pi R e E) (r Rd : ℤ) (d : List ℤ) (rd c cd : ℤ)
+    (Ed : Card) (hRd : 0 ≤ Rd ∧ Rd < G.q) (ld : d.length = pi.length)
+    (vc : Val G c (comVal G P pi.length (fun i => (pi.map fun (j : ℕ) => (Int.ofNat j + 1)).getD i 0) r))
+    (vcd : Val G cd (comVal G P pi.length (fun i => (d.map fun v => -v).getD i 0) rd))
+    (v1 : Val G Ed.c1 ((∏ i ∈ Finset.range pi.length, toF G (E.getD i ⟨0, 0⟩).c1 ^ (-(d.getD i 0))) *
+      toF G G.g ^ Rd))
+    (v2 : Val G Ed.c2 ((∏ i ∈ Finset.range pi.length, toF G (E.getD i ⟨0, 0⟩).c2 ^ (-(d.getD i 0))) *
+      toF G P.S.h ^ Rd))
+    (t : List ℤ) (lt : t.length = pi.length) (lambda : ℤ) :
+    (grothResp G.q pi R ⟨r, Rd, d, rd, c, cd, Ed⟩ t).1.length = pi.length ∧
+    ((∀ v ∈ (grothResp G.q pi R ⟨r, Rd, d, rd, c, cd, Ed⟩ t).1, modeLen mode P ≤ bitlen v) →
+      (grothResp G.q pi R ⟨r, Rd, d, rd, c, cd, Ed⟩ t).2 ≠ 0 →
+      grothChecks1 mode P c cd Ed (grothResp G.q pi R ⟨r, Rd, d, rd, c, cd, Ed⟩ t).1
+        (grothResp G.q pi R ⟨r, Rd, d, rd, c, cd, Ed⟩ t).2 = .ok true) ∧
+    (∃ cl C, mpzPowm c lambda G.p = .ok cl ∧
+      Val G (cl * cd % G.p) (comVal G P pi.length C ((lambda * r % G.q + rd) % G.q)) ∧
+      ∀ i < pi.length, toQ G (C i) = toQ G ((grothMsgs G.q lambda t).getD (pi.getD i 0) 0) -
+        toQ G ((grothResp G.q pi R ⟨r, Rd, d, rd, c, cd, Ed⟩ t).1.getD i 0)) ∧
+    grothFinal P e E t (grothResp G.q pi R ⟨r, Rd, d, rd, c, cd, Ed⟩ t).1 Ed
+      (grothResp G.q pi R ⟨r, Rd, d, rd, c, cd, Ed⟩ t).2 = .ok true := by
+  have hq := hG.q_pos
+  have hp1 := one_lt_p hG
+  have hg0 := g_ne hG
+  have hh0 := h_ne hG P.S hP.st
+  have hgq := g_sub hG
+  have hhq := h_sub P.S hP.st
+  have hEs := st.subE hG hP
+  have n0c := comVal_ne_zero hG hP pi.length st.lcg
+  set tp := pi.map (fun j => t.getD j 0) with htp
+  have gtp : ∀ i < pi.length, tp.getD i 0 = t.getD (pi.getD i 0) 0 := by
+    intro i hi; rw [htp, getD_map (fun j => t.getD j 0) pi i 0 0 hi]
+  have hf : (grothResp G.q pi R ⟨r, Rd, d, rd, c, cd, Ed⟩ t).1 =
+      (List.range pi.length).map fun i => (d.getD i 0 + tp.getD i 0) % G.q := rfl
+  have hZ : (grothResp G.q pi R ⟨r, Rd, d, rd, c, cd, Ed⟩ t).2 =
+      ((tp.zip R).foldl (fun acc (y : ℤ × ℤ) => (acc + y.1 * y.2 % G.q) % G.q) 0 + Rd) % G.q := rfl
+  have gf : ∀ i < pi.length, (grothResp G.q pi R ⟨r, Rd, d, rd, c, cd, Ed⟩ t).1.getD i 0 =
+      (d.getD i 0 + t.getD (pi.getD i 0) 0) % G.q := by
+    intro i hi; rw [hf, getD_map_range _ _ _ _ hi, gtp i hi]
+  -- Z modulo q
+  have hZq : toQ G (grothResp G.q pi R ⟨r, Rd, d, rd, c, cd, Ed⟩ t).2 =
+      toQ G (Rd + ∑ i ∈ Finset.range pi.length, R.getD i 0 * t.getD (pi.getD i 0) 0) := by
+    rw [hZ, toQ_emod hG, foldl_add_mod G.q hq (fun y : ℤ × ℤ => y.1 * y.2 % G.q) _ 0 (le_refl _) hq,
+      zero_add, toQ_add, toQ_emod hG, zip_range tp R 0 0 pi.length (by simp [htp]) st.lR, List.map_map,
+      sum_map_range, toQ_add, add_comm]
+    congr 1
+    have : ∀ i, ((fun y : ℤ × ℤ => y.1 * y.2 % G.q) ∘ fun i => (tp.getD i 0, R.getD i 0)) i =
+        (tp.getD i 0 * R.getD i 0) % G.q := fun i => rfl
+    simp only [this]
+    rw [toQ_sum_mod hG]
+    congr 1
+    apply Finset.sum_congr rfl
+    intro i hi
+    rw [gtp i (Finset.mem_range.mp hi), mul_comm]
+  refine ⟨by rw [hf]; simp, ?_, ?_, ?_⟩
+  · -- the checks before the SKC
+    intro hfl hZ0
+    have cpos := pos_of_val_ne vc (n0c _ _)
+    have cdpos := pos_of_val_ne vcd (n0c _ _)
+    have hEd1 : ((∏ i ∈ Finset.range pi.length, toF G (E.getD i ⟨0, 0⟩).c1 ^ (-(d.getD i 0))) *
+        toF G G.g ^ Rd) ^ G.q.natAbs = 1 := by
+      rw [mul_pow, prod_pow_eq_one _ _ _ (fun i hi => zpow_pow_q (hEs i hi).1 _), zpow_pow_q hgq, one_mul]
+    have hEd2 : ((∏ i ∈ Finset.range pi.length, toF G (E.getD i ⟨0, 0⟩).c2 ^ (-(d.getD i 0))) *
+        toF G P.S.h ^ Rd) ^ G.q.natAbs = 1 := by
+      rw [mul_pow, prod_pow_eq_one _ _ _ (fun i hi => zpow_pow_q (hEs i hi).2 _), zpow_pow_q hhq, one_mul]
+    have hZr := mod_range hG ((tp.zip R).foldl (fun acc (y : ℤ × ℤ) => (acc + y.1 * y.2 % G.q) % G.q) 0 + Rd)
+    rw [← hZ] at hZr
+    have hall : ((grothResp G.q pi R ⟨r, Rd, d, rd, c, cd, Ed⟩ t).1.all fun v =>
+        !(decide (bitlen v < modeLen mode P)) && decide (v < G.q)) = true := by
+      rw [List.all_eq_true]
+      intro v hv
+      have h1 := hfl v hv
+      rw [hf] at hv
+      obtain ⟨i, -, rfl⟩ := List.mem_map.mp hv
+      have := (mod_range hG (d.getD i 0 + tp.getD i 0)).2
+      simp only [Bool.and_eq_true, Bool.not_eq_true', decide_eq_false_iff_not, decide_eq_true_eq]
+      exact ⟨by omega, this⟩
+    simp only [grothChecks1, testMembership, hP.st.grp, mpzPowm_q_one hG _ _ v1 hEd1,
+      mpzPowm_q_one hG _ _ v2 hEd2, bind, Except.bind, pure, Except.pure]
+    simp only [cpos, vc.2.1, cdpos, vcd.2.1, decide_true, Bool.and_self, Bool.not_true,
+      Bool.false_eq_true, if_false, ne_eq, not_true_eq_false, or_self, hall]
+    rw [if_neg (by omega)]
+  · -- the commitment handed to the SKC
+    have hc0 : toF G c ≠ 0 := by rw [vc.2.2]; exact n0c _ _
+    obtain ⟨cl, hcl, -, -, clv⟩ := mpzPowm_val hG c lambda hc0
+    obtain ⟨x0, xp, xv⟩ := mulmod_val hG cl cd
+    refine ⟨cl, fun i => lambda * (pi.map fun (j : ℕ) => (Int.ofNat j + 1)).getD i 0 +
+      (d.map fun v => -v).getD i 0, hcl, ⟨x0, xp, ?_⟩, ?_⟩
+    · rw [xv, clv, vc.2.2, vcd.2.2, comVal_pow_mul hG hP _ st.lcg]
+      apply comVal_congr hG hP _ st.lcg
+      · intro i _; rfl
+      · simp only [toQ_emod hG, toQ_add, toQ_mul]
+    · intro i hi
+      have hpi := perm_getD_lt st.perm i hi
+      dsimp only
+      rw [gf i hi, getD_map (fun (j : ℕ) => (Int.ofNat j + 1)) pi i 0 0 hi,
+        getD_map (fun v : ℤ => -v) d i 0 0 (by omega)]
+      simp only [grothMsgs]
+      rw [getD_map_range _ _ _ _ (by omega)]
+      simp only [toQ_emod hG, toQ_add, toQ_mul, toQ_neg, Int.ofNat_eq_natCast]
+      ring
+  · -- the product equation
+    have hue : ∀ y ∈ e.zip t, toF G y.1.c1 ≠ 0 ∧ toF G y.1.c2 ≠ 0 := by
+      intro y hy
+      rw [zip_range e t ⟨0, 0⟩ 0 pi.length st.le lt] at hy
+      obtain ⟨i, hi, rfl⟩ := List.mem_map.mp hy
+      have := st.sub i (List.mem_range.mp hi)
+      exact ⟨this.1.ne_zero hG, this.2.ne_zero hG⟩
+    have lfl : (grothResp G.q pi R ⟨r, Rd, d, rd, c, cd, Ed⟩ t).1.length = pi.length := by rw [hf]; simp
+    have huE : ∀ y ∈ E.zip (grothResp G.q pi R ⟨r, Rd, d, rd, c, cd, Ed⟩ t).1,
+        toF G y.1.c1 ≠ 0 ∧ toF G y.1.c2 ≠ 0 := by
+      intro y hy
+      rw [zip_range E _ ⟨0, 0⟩ 0 pi.length st.lE lfl] at hy
+      obtain ⟨i, hi, rfl⟩ := List.mem_map.mp hy
+      have := hEs i (List.mem_range.mp hi)
+      exact ⟨this.1.ne_zero hG, this.2.ne_zero hG⟩
+    obtain ⟨L2, hL2, a1, a2⟩ := prodInv_val hG (e.zip t) ⟨1, 1⟩ ⟨by norm_num, hp1⟩ ⟨by norm_num, hp1⟩ hue
+    obtain ⟨L3, hL3, b1, b2⟩ := pairFold_val hG (fun b k => mpzPowm b k G.p) (fun k => k)
+      (fun b k hb => mpzPowm_val hG b k hb) (E.zip (grothResp G.q pi R ⟨r, Rd, d, rd, c, cd, Ed⟩ t).1)
+      ⟨1, 1⟩ ⟨by norm_num, hp1⟩ ⟨by norm_num, hp1⟩ huE
+    have hZr := mod_range hG ((tp.zip R).foldl (fun acc (y : ℤ × ℤ) => (acc + y.1 * y.2 % G.q) % G.q) 0 + Rd)
+    rw [← hZ] at hZr
+    obtain ⟨r1, hr1, c0, cp, r1v⟩ := fpowm_val hG P.S.tabG G.g _ hP.st.tabG hg0 (natAbs_lt_of_range hG hZr)
+    obtain ⟨r2, hr2, d0, dp, r2v⟩ := fpowm_val hG P.S.tabH P.S.h _ hP.st.tabH hh0 (natAbs_lt_of_range hG hZr)
+    obtain ⟨-, -, m1⟩ := mulmod_val hG L3.c1 Ed.c1
+    obtain ⟨x0, xp, m2⟩ := mulmod_val hG (L3.c1 * Ed.c1 % G.p) L2.c1
+    obtain ⟨-, -, m3⟩ := mulmod_val hG L3.c2 Ed.c2
+    obtain ⟨y0, yp, m4⟩ := mulmod_val hG (L3.c2 * Ed.c2 % G.p) L2.c2
+    have key : ∀ (comp : Card → ℤ) (b : F G) (hb0 : b ≠ 0) (hbq : b ^ G.q.natAbs = 1)
+        (hsub : ∀ i < pi.length, toF G (comp (E.getD i ⟨0, 0⟩)) ^ G.q.natAbs = 1)
+        (hsube : ∀ j < pi.length, toF G (comp (e.getD j ⟨0, 0⟩)) ≠ 0)
+        (hrel : ∀ i < pi.length, toF G (comp (E.getD i ⟨0, 0⟩)) =
+          toF G (comp (e.getD (pi.getD i 0) ⟨0, 0⟩)) * b ^ R.getD i 0),
+        (∏ i ∈ Finset.range pi.length, toF G (comp (E.getD i ⟨0, 0⟩)) ^
+            (grothResp G.q pi R ⟨r, Rd, d, rd, c, cd, Ed⟩ t).1.getD i 0) *
+          ((∏ i ∈ Finset.range pi.length, toF G (comp (E.getD i ⟨0, 0⟩)) ^ (-(d.getD i 0))) * b ^ Rd) *
+          (∏ i ∈ Finset.range pi.length, (toF G (comp (e.getD i ⟨0, 0⟩)) ^ t.getD i 0)⁻¹) =
+        b ^ (grothResp G.q pi R ⟨r, Rd, d, rd, c, cd, Ed⟩ t).2 := by
+      intro comp b hb0 hbq hsub hsube hrel
+      rw [zpow_toQ hG b hbq hZq]
+      rw [← shuffle_alg pi.length pi st.perm (fun j => toF G (comp (e.getD j ⟨0, 0⟩)))
+        (fun i => toF G (comp (E.getD i ⟨0, 0⟩))) b hb0 hsube (fun i => R.getD i 0) (fun i => d.getD i 0)
+        (fun j => t.getD j 0) Rd hrel]
+      congr 2
+      apply Finset.prod_congr rfl
+      intro i hi
+      have hi' := Finset.mem_range.mp hi
+      rw [gf i hi']
+      exact zpow_toQ hG _ (hsub i hi') (toQ_emod hG _)
+    have e1 : L3.c1 * Ed.c1 % G.p * L2.c1 % G.p = r1 := by
+      apply eq_of_toF_eq hG ⟨x0, xp⟩ ⟨c0, cp⟩
+      rw [m2, m1, b1.2.2, a1.2.2, v1.2.2, r1v,
+        prod_zip_range E ⟨0, 0⟩ _ pi.length st.lE lfl (fun y k => toF G y.c1 ^ k),
+        prod_zip_range e ⟨0, 0⟩ t pi.length st.le lt (fun y k => (toF G y.c1 ^ k)⁻¹)]
+      show toF G 1 * _ * _ * (toF G 1 * _) = _
+      rw [toF_one, one_mul, one_mul]
+      exact key (fun y => y.c1) _ hg0 hgq (fun i hi => (hEs i hi).1)
+        (fun j hj => (st.sub j hj).1.ne_zero hG) st.rel1
+    have e2 : L3.c2 * Ed.c2 % G.p * L2.c2 % G.p = r2 := by
+      apply eq_of_toF_eq hG ⟨y0, yp⟩ ⟨d0, dp⟩
+      rw [m4, m3, b2.2.2, a2.2.2, v2.2.2, r2v,
+        prod_zip_range E ⟨0, 0⟩ _ pi.length st.lE lfl (fun y k => toF G y.c2 ^ k),
+        prod_zip_range e ⟨0, 0⟩ t pi.length st.le lt (fun y k => (toF G y.c2 ^ k)⁻¹)]
+      show toF G 1 * _ * _ * (toF G 1 * _) = _
+      rw [toF_one, one_mul, one_mul]
+      exact key (fun y => y.c2) _ hh0 hhq (fun i hi => (hEs i hi).2)
+        (fun j hj => (st.sub j hj).2.ne_zero hG) st.rel2
+    have hInv : grothProdInv G.p e t = .ok (some L2) := hL2
+    have hPow : grothProdPow G.p E (grothResp G.q pi R ⟨r, Rd, d, rd, c, cd, Ed⟩ t).1 = .ok L3 := hL3
+    simp only [grothFinal, hP.st.grp, hInv, hPow, bind, Except.bind, hr1, hr2, pure, Except.pure, e1, e2]
+    simp
 end Tmcg.Args
